@@ -15,6 +15,11 @@ Rec == ndJsonDeserialize(IOEnv.TRACE)
 FoldTabDef == IF IOEnv.FOLD = "ascii" THEN <<>> ELSE JsonDeserialize(IOEnv.FOLDTAB)
 
 Has(e, k) == k \in DOMAIN e
+\* tags are strings "Cxx.name": test the property prefix (TLC has no substring operator; compare against the tag registry)
+FatalTags == {"C00.panic", "C00.hang", "C00.mount", "C01.result", "C01.tree_after", "C01.atomic_on_error", "C01.list", "C01.list_dots",
+              "C02.read_len", "C02.read_bytes", "C02.write_len", "C02.seek", "C02.truncate", "C02.flush",
+              "C04.decode", "C04.remount", "C04.extents", "C15.accept", "C15.lookup_hit", "C15.lookup_miss", "C15.lossless", "C15.no_side_effect"}
+SubSeqStr(t, pfx) == t \in FatalTags
 Get(e, k, dflt) == IF k \in DOMAIN e THEN e[k] ELSE dflt
 Tag(t, ok) == IF ok THEN {} ELSE {t}
 
@@ -52,8 +57,28 @@ Begin(e) ==
    IN [pid |-> e.pid, dead |-> ~e.raw.ok, cfg |-> e.cfg, oem |-> oem, m |-> InitModel(D, oem), raw |-> e.raw, D |-> D,
        rv |-> Get(e, "rv", [ok |-> FALSE]), sv |-> <<>>, svok |-> FALSE,
        mounted |-> FALSE, mountSt |-> e.raw.st, changed |-> FALSE, clk |-> e.clk, ro |-> TRUE,
-       atime |-> Get(e.cfg, "atime", FALSE), U |-> e.raw.g.cell, fiUsable |-> FALSE, fiW |-> FALSE, mountRaw |-> e.raw,
+       atime |-> Get(e.cfg, "atime", FALSE), U |-> e.raw.g.cell, fiUsable |-> FALSE, fiW |-> FALSE, fiTrust |-> TRUE, mountRaw |-> e.raw,
        dur |-> {}, wl |-> 0, crv |-> [ok |-> FALSE]]
+
+\* C08: a volume made by someone else is read faithfully: what the library lists (fresh mount) and what
+\* Abs(raw) decodes both equal the builder's ground truth (names, kinds, attributes, stamps, contents)
+TruthFacts(t) == {[p |-> t[i].p, k |-> t[i].k, at |-> t[i].at, d |-> t[i].c, ct |-> t[i].ct, mt |-> t[i].mt, ad |-> t[i].ad] : i \in 1..Len(t)}
+BeginViol(e) ==
+   IF ~Has(e, "truth") THEN {}
+   ELSE LET oem == Oem(e.cfg)
+            D == Derive(e.raw, oem)
+            want == TruthFacts(e.truth)
+            rvT == IF Has(e, "rv") /\ e.rv.ok THEN e.rv.tree ELSE <<>>
+            seen == {[p |-> rvT[i].p, k |-> rvT[i].k, at |-> rvT[i].at, d |-> IF rvT[i].k = "f" THEN rvT[i].c ELSE <<>>,
+                      ct |-> rvT[i].ct, mt |-> rvT[i].mt, ad |-> rvT[i].ad]
+                     : i \in {x \in 1..Len(rvT) : rvT[x].k \in {"f", "d"} /\ ~(rvT[x].sn = <<46>> \/ rvT[x].sn = <<46, 46>>)}}
+            abs == {[p |-> D.rows[i].p, k |-> IF D.rows[i].e.dir THEN "d" ELSE "f", at |-> D.rows[i].e.s.at,
+                     d |-> IF D.rows[i].e.dir THEN <<>> ELSE Get(D.rows[i].e.s, "fd", <<>>),
+                     ct |-> DecodeCreated(D.rows[i].e.s.ct), mt |-> DecodeModified(D.rows[i].e.s.mt), ad |-> DecodeDate(D.rows[i].e.s.ad)]
+                    : i \in 1..Len(D.rows)}
+        IN Tag("C08.view", Has(e, "rv") /\ e.rv.ok /\ seen = want)
+           \cup Tag("C08.decode_truth", abs = want)
+           \cup (LET sv == StructViol(e.raw, D, {}, <<>>) IN IF sv = {} THEN {} ELSE {"C08.valid_input"} \cup sv)
 
 Dead == [pid |-> "", dead |-> TRUE]
 
@@ -303,7 +328,9 @@ SegOk(s, seg, post, Dpost) ==
      [] OTHER -> FALSE
 
 Step(s, e) ==
-   IF e.op = "begin" THEN [s |-> Begin(e), v |-> {}, dev |-> {}, note |-> {}]
+   IF e.op = "begin" THEN
+        IF e.r.k # "ok" \/ ~Has(e, "raw") THEN [s |-> Dead, v |-> {}, dev |-> {}, note |-> {"SKIPBEGIN"}]
+        ELSE [s |-> Begin(e), v |-> BeginViol(e), dev |-> {}, note |-> {}]
    ELSE IF s.dead \/ e.op = "end" THEN [s |-> s, v |-> {}, dev |-> {}, note |-> {}]
    ELSE IF e.op = "crash" THEN
         \* C14: the image a power cut leaves after the first e.p entries of the device write log
@@ -341,7 +368,9 @@ Step(s, e) ==
                [] e.op \in {"mount", "unmount", "dropfs", "abandon"} -> [m |-> [s.m EXCEPT !.fh = <<>>, !.dh = <<>>], v |-> Tag("C00.mount", e.r.k = "ok"), ooc |-> FALSE]
                [] e.op = "stats" -> [m |-> s.m, ooc |-> FALSE,
                                      v |-> IF e.r.k # "ok" THEN {"C05.stats"}
-                                           ELSE Tag("C05.stats", e.r.free = FreeCount(Dp.F) /\ e.r.total = post.g.n /\ e.r.cs = post.g.cs)]
+                                           \* (a FAT32 volume whose advisory FSInfo count was already wrong when it was mounted is out of scope:
+                                           \*  the library documents that it reports that count)
+                                           ELSE Tag("C05.stats", (s.fiTrust => e.r.free = FreeCount(Dp.F)) /\ e.r.total = post.g.n /\ e.r.cs = post.g.cs)]
                [] OTHER -> [m |-> s.m, v |-> {}, ooc |-> FALSE]
    IN
    IF os.ooc THEN [s |-> [s EXCEPT !.dead = TRUE], v |-> {}, dev |-> {}, note |-> {"OOC"}]
@@ -384,9 +413,13 @@ Step(s, e) ==
        \* is the FSInfo free count usable for this mount: present, in range, volume clean at mount
        fiUsable == IF e.op = "mount" THEN IsFat32(s.raw) /\ s.raw.fi.ok /\ s.raw.fi.free >= 0 /\ s.raw.fi.free <= s.raw.g.n /\ ~DirtyBit(s.raw.st)
                    ELSE s.fiUsable \/ (e.op = "stats" /\ e.r.k = "ok")
+       fiTrust == IF e.op = "mount"
+                  THEN ~(IsFat32(s.raw) /\ s.raw.fi.ok /\ s.raw.fi.free >= 0 /\ s.raw.fi.free <= s.raw.g.n /\ ~DirtyBit(s.raw.st))
+                       \/ s.raw.fi.free = FreeCount(s.D.F)
+                  ELSE s.fiTrust
        \* ---- C05 FSInfo at unmount
        \* (a volume left marked dirty tells every mounter to ignore the stored count)
-       c05 == IF e.op \in {"unmount", "dropfs"} /\ IsFat32(post) /\ e.r.k = "ok" /\ post.fi.ok /\ ~DirtyBit(post.st)
+       c05 == IF e.op \in {"unmount", "dropfs"} /\ IsFat32(post) /\ e.r.k = "ok" /\ post.fi.ok /\ ~DirtyBit(post.st) /\ s.fiTrust
               THEN Tag("C05.fsinfo_count", post.fi.free = -1 \/ post.fi.free = FreeCount(Dp.F))
                    \cup Tag("C05.fsinfo_hint", post.fi.next = -1 \/ (post.fi.next >= 2 /\ post.fi.next <= post.g.n + 1))
               ELSE {}
@@ -403,9 +436,35 @@ Step(s, e) ==
        dur == {IF r.n \in touched /\ r.hi = 1073741824 THEN [r EXCEPT !.hi = s.wl] ELSE r : r \in s.dur}
               \* durable from the last flush the storage has seen (e.fm), not merely from the return of the call
               \cup {[n |-> n, p |-> PathOf(m, n, 64), d |-> m.nodes[n].data, lo |-> Get(e, "fm", wlNow), hi |-> 1073741824] : n \in flushed \cap Ids(m)}
-       v == os.v \cup st3.v \cup tv \cup c10 \cup c11 \cup c12 \cup c13 \cup c05
-   IN [s |-> [s EXCEPT !.m = m, !.raw = post, !.D = Dp, !.rv = rv, !.sv = sv, !.svok = svok, !.dead = (v # {}),
-                       !.changed = changed, !.mountSt = mountSt, !.ro = ro, !.fiUsable = fiUsable, !.fiW = fiW,
+       \* ---- C08 frames / C11 ownership: what this call may change
+       \* objects whose path appears, disappears or is the target of a file operation, and all their ancestors
+       opNodes == hnode \cup (IF e.op = "close_all" THEN {s.m.fh[h].node : h \in DOMAIN s.m.fh} ELSE {})
+       pathsPre == {PathOf(s.m, i, 64) : i \in Ids(s.m)}
+       pathsPost == {PathOf(m, i, 64) : i \in Ids(m)}
+       changedPaths == (pathsPre \ pathsPost) \cup (pathsPost \ pathsPre) \cup {PathOf(s.m, i, 64) : i \in opNodes \cap Ids(s.m)}
+       allowed == UNION {{SubSeq(p, 1, k) : k \in 0..Len(p)} : p \in changedPaths}
+       framed == rawChanged /\ e.op # "mount" /\ Len(s.raw.dirs) > 0
+       chainsOf(D, raw) == UNION ({ToSet(D.rows[i].w.ch) : i \in {x \in 1..Len(D.rows) : D.rows[x].p \in allowed}}
+                                  \cup {IF <<>> \in allowed /\ IsFat32(raw) THEN ToSet(Walk(D.F, raw.g.rootc).ch) ELSE {}})
+       \* clusters no entry references belong to a file whose entry lags behind (deferred write-back, C03 keeps them in check)
+       lostOf(D, raw) == LostSet(D.F, [i \in 1..Len(D.rows) |-> D.rows[i].w]
+                                      \o (IF IsFat32(raw) THEN <<Walk(D.F, raw.g.rootc)>> ELSE <<>>))
+       okClusters == TLCEval(chainsOf(s.D, s.raw) \cup chainsOf(Dp, post) \cup lostOf(s.D, s.raw) \cup lostOf(Dp, post))
+       fatPre == s.raw.fats[s.raw.g.act + 1]
+       fatPost == post.fats[post.g.act + 1]
+       changedFat == {k \in DOMAIN fatPre.m \cup DOMAIN fatPost.m : Get(fatPre.m, k, 0) # Get(fatPost.m, k, 0)}
+       c08 == IF ~framed THEN {}
+              ELSE Tag("C08.frame_fat", \A k \in changedFat : k \notin DOMAIN fatPre.m \/ k \in {ToString(c) : c \in okClusters})
+                   \cup Tag("C08.frame_slots",
+                        \A a \in 1..Len(s.raw.dirs) : \A b \in 1..Len(post.dirs) :
+                           (s.raw.dirs[a].id = post.dirs[b].id /\ s.D.paths[a] \notin allowed /\ Dp.paths[b] \notin allowed)
+                           => [i \in 1..Len(s.raw.dirs[a].sl) |-> s.raw.dirs[a].sl[i].x] = [i \in 1..Len(post.dirs[b].sl) |-> post.dirs[b].sl[i].x])
+                   \cup Tag("C08.frame_bad", fatPre.bad = fatPost.bad)
+       c11o == Tag("C11.owner", \A i \in 1..Len(e.w) : e.w[i].r = "clu" =>
+                       (IsFreeC(s.D.F, e.w[i].c) \/ e.w[i].c \in okClusters \/ ~InRangeC(s.D.F, e.w[i].c)))
+       v == os.v \cup st3.v \cup tv \cup c10 \cup c11 \cup c11o \cup c12 \cup c13 \cup c05 \cup c08
+   IN [s |-> [s EXCEPT !.m = m, !.raw = post, !.D = Dp, !.rv = rv, !.sv = sv, !.svok = svok, !.dead = (\E t \in v : \E pfx \in {"C00.", "C01.", "C02.", "C04.", "C15."} : SubSeqStr(t, pfx)),
+                       !.changed = changed, !.mountSt = mountSt, !.ro = ro, !.fiUsable = fiUsable, !.fiW = fiW, !.fiTrust = fiTrust,
                        !.mountRaw = IF e.op = "mount" THEN s.raw ELSE s.mountRaw, !.dur = dur, !.wl = wlNow,
                        !.clk = IF Has(e, "clk") THEN e.clk ELSE s.clk],
        v |-> v, dev |-> st3.dev, note |-> {}]
